@@ -50,8 +50,15 @@ class Site(object):
 
     def respond(self, host, port, path, n_hit):
         """Return (cls, bytes)."""
-        if path == '/robots.txt':
-            r = self.robots.get(host if port == 80 else '%s:%d' % (host, port), {'kind': 'missing'})
+        olabel = host if port == 80 else '%s:%d' % (host, port)
+        r0 = self.robots.get(olabel, {'kind': 'missing'})
+        via = r0.get('via_redirect') if r0.get('kind') == 'rules' else None
+        if via and path == '/robots.txt':
+            # the control file is reached through a redirect whose own body is longer than the file itself
+            filler = ('<html><body>moved ' + 'x' * via.get('body_len', 600) + via.get('tail', '') + '</body></html>').encode()
+            return 'robots30x', _http(301, 'Moved', filler, 'text/html', [('Location', 'http://%s%s' % (olabel, via['path']))])
+        if path == '/robots.txt' or (via and path == via['path']):
+            r = r0
             k = r['kind']
             if k == 'rules':
                 body = 'User-agent: %s\n' % r.get('agent', '*')
@@ -60,6 +67,8 @@ class Site(object):
                 for p in r.get('allow', []):
                     body += 'Allow: %s\n' % p
                 body += r.get('extra', '')
+                if r.get('no_newline'):
+                    body = body.rstrip('\n')
                 return 'robots200', _http(200, 'OK', body.encode(), 'text/plain')
             if k == 'missing':
                 return 'robots404', _http(404, 'Not Found', b'no', 'text/plain')
@@ -208,7 +217,9 @@ class CrawlRun(object):
         if self.nreq > self.max_requests:
             raise Runaway('requests')
         d = self.site.lookup(host, port, path)
-        kind = 'robots' if path == '/robots.txt' else ('page' if d is not None else 'other')
+        rcfg = self.site.robots.get(host if port == 80 else '%s:%d' % (host, port), {})
+        is_robots = path == '/robots.txt' or (rcfg.get('via_redirect') or {}).get('path') == path
+        kind = 'robots' if is_robots else ('page' if d is not None else 'other')
         u = d['id'] if d is not None else 0
         self.pending.append((self.nreq, ep, u, host, port, path, kind))
         item = self.task_item.get(asyncio.current_task(), 0)
